@@ -39,11 +39,12 @@ type Case struct {
 	SkipOK, SkipFail bool
 	T0               int
 	Ops              []Op
+	SubSec           bool `json:",omitempty"` // Expiration is 500ms (below the limiter's one-second resolution); the history then has no clock advances
 }
 
 func newLimiter(c Case, st *vk.Storage, onHandler func(fiber.Ctx)) *fiber.App {
 	cfg := limiter.Config{
-		Max: c.Max, Expiration: time.Duration(c.Exp) * time.Second,
+		Max: c.Max, Expiration: expiration(c),
 		MaxFunc: func(ctx fiber.Ctx) int {
 			n, err := strconv.Atoi(ctx.Query("lim"))
 			if err != nil {
@@ -73,6 +74,15 @@ func newLimiter(c Case, st *vk.Storage, onHandler func(fiber.Ctx)) *fiber.App {
 	return app
 }
 
+// expiration: whole seconds, or 500ms for SubSec cases. Whatever window the limiter derives from a sub-second value,
+// requests that arrive within one instant share it: the first `limit` are admitted, the following ones are not.
+func expiration(c Case) time.Duration {
+	if c.SubSec {
+		return 500 * time.Millisecond
+	}
+	return time.Duration(c.Exp) * time.Second
+}
+
 type win struct {
 	live             bool
 	end              uint32
@@ -100,8 +110,14 @@ func check(c Case) vk.Verdict {
 	v := vk.Verdict{Classes: []string{"algo:" + c.Algo, "store:" + c.Store}}
 	crossed, rejected, dynamic := false, false, false
 	exp := uint32(c.Exp)
+	if c.SubSec {
+		exp = 1 << 20 // no clock advance in such a case: the window never rolls in the model
+	}
 	for i, op := range c.Ops {
 		if op.Kind == "adv" {
+			if c.SubSec {
+				continue
+			}
 			now += uint32(op.Dt)
 			vk.SetNow(now)
 			continue
@@ -206,7 +222,7 @@ func check(c Case) vk.Verdict {
 			if err != nil {
 				return vk.Failf("%s: 429 without a numeric Retry-After (%q)", ctx, r.Response.Header.Peek("Retry-After"))
 			}
-			if uint32(ra) != w.end-now {
+			if !c.SubSec && uint32(ra) != w.end-now {
 				return vk.Failf("%s: Retry-After %d, want %d (time until the window resets)", ctx, ra, w.end-now)
 			}
 		}
@@ -233,6 +249,7 @@ func genCase(t *rapid.T) Case {
 	case 1:
 		c.SkipFail = true
 	}
+	c.SubSec = rapid.IntRange(0, 9).Draw(t, "subsec") == 0
 	mode := rapid.SampledFrom([]string{"const", "const", "constdiff", "dynamic"}).Draw(t, "maxmode")
 	constLimit := c.Max
 	if mode == "constdiff" {
